@@ -495,6 +495,22 @@ def list_method(I, st, ref, h, name, args, kwargs, node):
             return [(st, None)]
     if name == "copy" or name == "__copy__":
         return [(st, st.alloc(HList(arr=arr, n=n, k=k, tag=tag)))]
+    if name == "index" and len(args) == 1 and not isinstance(k, tuple):
+        # documented: index of the FIRST occurrence of x; ValueError when x does not occur
+        x = to_term(args[0], k)
+        i0 = z3.Int(fresh_name("idx_i"))
+        j = z3.Int(fresh_name("j"))
+        from .smt import feasible
+        out = []
+        s1 = st.fork()
+        s1.assume(0 <= i0, i0 < n, z3.Select(arr, i0) == x)
+        s1.assume(z3.ForAll([j], z3.Implies(z3.And(0 <= j, j < i0), z3.Select(arr, j) != x)))
+        if feasible(s1.pc, I.feas_timeout):
+            out.append((s1, Sym(i0, "int")))
+        st.assume(z3.ForAll([j], z3.Implies(z3.And(0 <= j, j < n), z3.Select(arr, j) != x)))
+        if feasible(st.pc, I.feas_timeout):
+            out += raise_(st, ValueError, "x is not in list", node=node)
+        return out
     if name == "reverse":
         na = fresh_arr("rev", k)
         j = z3.Int(fresh_name("j"))
@@ -686,6 +702,12 @@ def cdict_method(I, st, ref, h, name, args, kwargs, node):
 
 def set_method(I, st, ref, h, name, args, kwargs, node):
     used(f"set.{name}")
+    sp = I.specs.get(f"set.{name}")
+    if sp is not None:
+        # contract-module hook (same pattern as str.<name>): handler returns None to fall through
+        r = sp(I, st, [ref] + list(args), kwargs, node)
+        if r is not None:
+            return r
     if h.items is not None:
         if name == "add":
             st.written.add((ref.id, "*"))
@@ -727,6 +749,14 @@ def set_method(I, st, ref, h, name, args, kwargs, node):
             h.size = z3.If(z3.Select(h.dom, k), h.size, h.size + 1)
             h.dom = z3.Store(h.dom, k, True)
             return [(st, None)]
+        if name == "discard":
+            st.written.add((ref.id, "*"))
+            k = to_term(args[0], h.kk)
+            h.size = z3.If(z3.Select(h.dom, k), h.size - 1, h.size)
+            h.dom = z3.Store(h.dom, k, False)
+            return [(st, None)]
+        if name == "copy":
+            return [(st, st.alloc(HSet(dom=h.dom, size=h.size, kk=h.kk)))]
     raise Unsupported(f"set.{name}", node)
 
 
